@@ -136,6 +136,10 @@ def gen_scenarios(rng, n):
     out.append(";".join(["shget 0", "shget 1"] + ["shset %d %d;shget %d;shget %d" % (c, t, c, 1 - c) for c in (0, 1) for t in (0, 1, 0)]))
     out.append(";".join(["spacing0"] + ["spacing %s %s" % (hx(a), hx(b)) for a in (-1, -5, 0, 1, 13, 14, 15, 20, 21, 40, 200) for b in (-1, 0, 19, 20, 21, 32, 33, 47, 300)]))
     out.append("defaults 2 10 4 5 6 9;new 3 0;gettype 3;getw 3 1 1 1 0 0 0;geteager 3;settype 3 7;getnr 3;settype 3 -1;gettype 3;getw 3 1 1 1 0 0 0")
+    # re-selecting the CURRENT type through the placeholder SC_NOTIFY_DEFAULT (public default = the controller's type) keeps the data
+    out.append("defaults 2 400 4 5 6 9;new 0 0;gettype 0;setw 0 3 b d;settype 0 -1;gettype 0;getw 0 1 1 1 0 0 0;settype 0 2;getw 0 1 1 1 0 0 0")
+    out.append("defaults 7 400 4 5 6 9;new 0 0;gettype 0;setnr 0 b;setpk 0 2a;settype 0 -1;gettype 0;getnr 0;getpk 0;settype 0 7;getnr 0;getpk 0")
+    out.append("defaults 8 400 4 5 6 9;new 0 0;settype 0 8;setcb 0 2 5;settype 0 -1;getcb 0;gettype 0")
     # seeded histories
     for _ in range(n):
         ops = []
@@ -148,7 +152,7 @@ def gen_scenarios(rng, n):
             k = rng.randrange(4)
             if k not in live:
                 if r < 0.15:
-                    t = rng.randrange(0, 9)
+                    t = rng.choice([NARY, RANGES, SUPERSET, rng.randrange(0, 9)])
                     dflt["t"] = t
                     ops.append("defaults %d %x %x %x %x %x" % (t, rng.choice(E + [rng.getrandbits(64)]), rng.choice(W), rng.choice(W), rng.choice(W),
                                                                  rng.choice([1, 2, 25, INT_MAX, rng.randrange(1, 1 << 31)])))
@@ -159,7 +163,7 @@ def gen_scenarios(rng, n):
             if r < 0.04:
                 ops.append("destroy %d" % k); live.discard(k)
             elif r < 0.20:
-                t = rng.choice([-1, 2, 7, 8, 2, 7, 8, rng.randrange(0, 9)])
+                t = rng.choice([-1, -1, 2, 7, 8, 2, 7, 8, rng.randrange(0, 9)] + ([-1, -1, -1] if dflt["t"] in (NARY, RANGES, SUPERSET) else []))
                 nt = dflt["t"] if t == -1 else t
                 if nt != typ[k]:
                     cbset.discard(k)
@@ -391,8 +395,16 @@ def run(ctx):
             return None
         return out
 
+    scenfile = os.path.join(ctx.scratch, "c20_scenarios.txt")
+    open(scenfile, "w").write(text)
+
     def run_impl(cmd, label, mpi):
-        rc, impl, err = ctx.run_lines(cmd, text, timeout=900, env=env)
+        # the scenarios travel as a file (mpirun's stdin forwarding has crashed mpirun itself with long inputs)
+        rc, impl, err = ctx.run_lines(cmd + [scenfile], "", timeout=900, env=env)
+        if rc != 0 and mpi and re.search(r"mca_iof_hnp|orte_iof|mpirun\(\+0x", err):
+            # the launcher died, not the program: run once more
+            ctx.notes["mpirun_relaunched"] = ctx.notes.get("mpirun_relaunched", 0) + 1
+            rc, impl, err = ctx.run_lines(cmd + [scenfile], "", timeout=900, env=env)
         impl = [l for l in impl]
         if rc != 0:
             k = max(0, len([l for l in impl if l != ""]) - 0)
